@@ -81,17 +81,18 @@ def _emit_imports():
     return gen
 
 
-N_EMIT = 12 * 4 * 2 * 2 * 2          # family entry x event-type ordering x language x (inline | resonance given as a separate sub-line) x history
+N_ENTRIES = 14
+N_EMIT = N_ENTRIES * 4 * 2 * 2 * 2   # family entry x event-type ordering x language x (inline | resonance given as a separate sub-line) x history
 
 
 def body_emit(sel: int) -> bool:
     gen = _emit_imports()
-    ei, rest = sel % 12, sel // 12
+    ei, rest = sel % N_ENTRIES, sel // N_ENTRIES
     ev, rest = rest % 4, rest // 4
     lang, rest = rest % 2, rest // 2
     partial, history = rest % 2, rest // 2
-    entry = gen.FAMILY[ei]
-    event = gen.EVENT_TYPES[ev]
+    entry = (gen.FAMILY + gen.EXTRA)[ei]
+    event = gen.EXTRA_EVENTS[entry[0]][ev] if entry[0] in gen.EXTRA_EVENTS else gen.EVENT_TYPES[ev]
     cls = gen.GooFitChain if lang == 0 else gen.GooFitPyChain
     key, line, topo, struct, L_top, res, leaves = entry
     text_line = line
@@ -113,6 +114,8 @@ def body_emit(sel: int) -> bool:
             return True
         sub = line[start:end] + " 2 1 0 2 0 0\n"
         text_line = line[:start] + rn + line[end:]
+    if partial and len({r[0] for r in res}) < len(res):
+        return True                          # two resonances of one name: a sub-line would be taken for both (that is C17's expansion)
     text = "EventType D0 " + " ".join(event) + "\n" + text_line + " 0 0.5 0.1 0 1.5 0.2\n" + sub + gen.PARAMS
     import contextlib, io
     if history:
